@@ -436,6 +436,9 @@ def run(ctx, rep):
     # the characters of a literal are part of what was written: nothing may trim them by content
     from rules.c09 import rule_trim
     rule_trim(ctx, rep, rid="R-C01-trim")
+    # an alternative that waits for an identifier token the lexer can never produce is dead: the well-formed text it stands for is rejected
+    from rules.c09 import rule_ideq
+    rule_ideq(ctx, rep, rid="R-C01-ideq")
     # nothing that was written is dropped: a comment ends at its first *) (otherwise the code up to the next comment vanishes)
     from rules import c08_trivia
     c08_trivia.run_comment(ctx, rep, rid="R-C01-comment")
